@@ -11,7 +11,6 @@ import io
 import json
 import os
 import shutil
-import signal
 import subprocess
 import sys
 import tempfile
@@ -269,10 +268,18 @@ def damage_input(step, p):
     else:
         with open(path, 'rb') as fh:
             data = fh.read()
-        if len(data) < 2:
-            raise HarnessError('cannot cut a %d-byte file in the middle' % len(data))
+        body = data.rstrip()          # the samestat layout pads with trailing newlines: cut inside the JSON text proper
+        if len(body) < 2:
+            raise HarnessError('cannot cut a %d-byte file in the middle' % len(body))
+        cut = data[:len(body) // 2]
+        try:
+            json.loads(cut.decode('utf8', 'replace'))
+        except ValueError:
+            pass
+        else:
+            raise HarnessError('cut-off input is still well-formed JSON')
         with open(path, 'wb') as fh:
-            fh.write(data[:len(data) // 2])
+            fh.write(cut)
 
 
 class _FileProxy:
